@@ -123,7 +123,10 @@ def sh2(prog):
     fn = fns[0]
     te = fn.terms
     err = "literal case not recognised"
-    for t in [v for b, t in te.ret_by_block.items() for v in mir.subterms(t)]:
+    ev = _sdd_literal_by_paths(fn)
+    if ev is not None:
+        err = ev or None
+    for t in [v for b, t in te.ret_by_block.items() for v in mir.subterms(t)] if ev is None else []:
         ba = bool_arms(t)
         if ba and strip(ba[0])[0] == "bin" and strip(ba[0])[1] == "Eq":
             c = strip(ba[0])
@@ -542,3 +545,93 @@ def sh6(prog):
 
 def run(prog):
     return sh1(prog) + sh2(prog) + sh3(prog) + sh4(prog) + sh5(prog) + cc(prog) + sh6(prog)
+
+
+def _sdd_literal_by_paths(fn):
+    """The literal case of the SDD `condition(f, lbl, value)` *evaluated*: the CFG is walked under the assumption that f
+    is a `Var(l, p)`; every open test on the way is a comparison of l with lbl, of p with value, or of p / value alone.
+    Each path must return f when l != lbl, True when l == lbl and p == value, False when l == lbl and p != value.
+    Returns "" (all paths agree), an error text (a path disagrees), or None (a path or test the evaluator cannot read)."""
+    f = ("param", 2)
+    paths = canon.paths_under(fn, f, "Var", with_conds=True)
+    if not paths:
+        return None
+    L, PV, LBL, VAL = "(arg2 as Var).0", "(arg2 as Var).1", "arg3", "arg4"
+
+    def peel(t):
+        t = strip(t)
+        while isinstance(t, tuple) and t and t[0] in ("ref", "deref"):
+            t = strip(t[1])
+        return t
+
+    def truth(lab):
+        if lab == "0":
+            return False
+        if isinstance(lab, str):
+            return True
+        if isinstance(lab, tuple) and lab[0] == "not":
+            if "0" in lab[1]:
+                return True
+            if "1" in lab[1]:
+                return False
+        return None
+
+    errs, seen = [], set()
+    for r, conds in paths:
+        know = {}
+        for c, lab, _ in conds:
+            tv = truth(lab)
+            c = peel(c)
+            while isinstance(c, tuple) and c and c[0] == "un" and c[1] == "Not":
+                c = peel(c[2]); tv = None if tv is None else not tv
+            if tv is None:
+                return None
+            sides = None
+            if c[0] == "bin" and c[1] in ("Eq", "Ne"):
+                sides, ne = {show(peel(c[2])), show(peel(c[3]))}, c[1] == "Ne"
+            elif c[0] == "call" and c[1].name in ("eq", "ne") and len(c[2]) == 2:
+                sides, ne = {show(peel(c[2][0])), show(peel(c[2][1]))}, c[1].name == "ne"
+            if sides is not None:
+                v = tv != ne
+                if sides == {L, LBL}:
+                    know["leq"] = v
+                elif sides == {PV, VAL}:
+                    know["pveq"] = v
+                else:
+                    return None
+            elif show(c) == PV:
+                know["p"] = tv
+            elif show(c) == VAL:
+                know["v"] = tv
+            else:
+                return None
+        if "pveq" not in know and "p" in know and "v" in know:
+            know["pveq"] = know["p"] == know["v"]
+        r = peel(r)
+        if r == f:
+            got = "f"
+        elif isinstance(r, tuple) and r and r[0] == "agg" and r[3] in ("PtrTrue", "PtrFalse"):
+            got = r[3]
+        elif isinstance(r, tuple) and r and r[0] == "agg" and r[3] == "Var" and [show(peel(o)) for o in r[4]] == [L, PV]:
+            got = "f"
+        else:
+            return None
+        if know.get("leq") is False:
+            want = "f"
+        elif know.get("leq") is True and "pveq" in know:
+            want = "PtrTrue" if know["pveq"] else "PtrFalse"
+        elif "leq" not in know:
+            errs.append("Var(l, p) | lbl=value gives %s on a path that never compares l with lbl" % got)
+            continue
+        else:
+            errs.append("Var(l, p) | lbl=value gives %s whenever l == lbl, whether or not p == value" % got)
+            continue
+        seen.add((know.get("leq"), know.get("pveq") if know.get("leq") else None))
+        if got != want:
+            errs.append("Var(l, p) | lbl=value gives %s when l %s lbl%s (expected %s)" % (
+                got, "==" if know["leq"] else "!=", (" and p %s value" % ("==" if know["pveq"] else "!=")) if know["leq"] else "", want))
+    if errs:
+        return "; ".join(sorted(set(errs))[:2])
+    if seen >= {(False, None), (True, True), (True, False)}:
+        return ""
+    return None
